@@ -230,6 +230,9 @@ func (s *Sim) Gen(r *PRNG) Step {
 		}
 	case "advance":
 		st.A = []int{1, 10, 100, 1000, 10000, 1000000}[r.Intn(6)]
+		if s.Cfg.Profile == "streak" {
+			st.A = []int{1000, 100000, 1000000}[r.Intn(3)]
+		}
 	case "crash":
 		st.A = r.Intn(2)
 	case "deliver", "relist", "resync":
